@@ -77,7 +77,7 @@ def run(ctx):
                 class _Rx:
                     running = True
                     callWhenRunning = callFromThread = staticmethod(lambda f, *a, **k: None)
-                with mock.patch.object(api, "reactor", _Rx()):
+                with use_reactor(_Rx()):
                     proxy = api.connect("h", password=pw)
                 cl = proxy.factory.buildProtocol(None)
                 tr = []
@@ -172,7 +172,7 @@ def run(ctx):
             c._handleDHAuth(struct.pack("!HH", g, L))
             c._handleDHAuthKey(m.to_bytes(L, "big"))
             del trace[:]
-            with mock.patch("os.urandom", lambda n, sec=sec: sec.to_bytes(n, "big")):
+            with hook("urandom", lambda n, sec=sec: sec.to_bytes(n, "big")):
                 c._handleDHAuthCert(sk.to_bytes(L, "big"))
             reply = trace[-1][1]
             err = None
